@@ -240,7 +240,7 @@ func init() {
 			return lab.CollectOpts{N: c.Pick(100, 300), Profiles: []string{"backtracky", "plain", "backtracky", "deep", "liney"},
 				Inputs: c.Pick(24, 40), Hostile: true,
 				Score: scoreBy(func(r *refpeg.Result, in []rune) int {
-					return b2i(r.OK)*2 + b2i(r.OK && r.Stats.DiscardedTokens > 0)*2 + b2i(r.OK && r.Stats.MultiByteConsumed)
+					return b2i(r.OK)*2 + b2i(r.OK && r.Stats.DiscardedTokens > 0)*2 + b2i(r.OK && r.Stats.DiscardedCaptures > 0)*2 + b2i(r.OK && r.Stats.MultiByteConsumed)
 				})}
 		},
 		Modes: func(c *drv.Ctx, pt *Point, v lab.Variant) []proto.Mode {
@@ -264,6 +264,9 @@ func init() {
 				if m.Size == 0 && (pt.Ref.Stats.DiscardedTokens > 0 || pt.Ref.Stats.MultiByteConsumed) && c.Stats.Nontrivial(pt.key()) {
 					if pt.Ref.Stats.DiscardedTokens > 0 {
 						c.Stats.Class("nt_tokens_discarded_by_backtracking_or_lookahead")
+					}
+					if pt.Ref.Stats.DiscardedCaptures > 0 {
+						c.Stats.Class("nt_capture_tokens_discarded")
 					}
 					if pt.Ref.Stats.MultiByteConsumed {
 						c.Stats.Class("nt_multibyte_consumed")
